@@ -374,12 +374,17 @@ func (env *Env) eval(e *E) SV {
 			seen := map[string]bool{}
 			var ps []string
 			for _, p := range pats {
+				if strings.Contains(p, "(ite ") {
+					continue // not allowed in patterns
+				}
 				if !seen[p] {
 					seen[p] = true
 					ps = append(ps, ":pattern ("+p+")")
 				}
 			}
-			bs = "(! " + bs + " " + strings.Join(ps, " ") + ")"
+			if len(ps) > 0 {
+				bs = "(! " + bs + " " + strings.Join(ps, " ") + ")"
+			}
 		}
 		return SV{V: Scalar{Term{fmt.Sprintf("(%s (%s) %s)", e.Op, strings.Join(decl, " "), bs), SBool}}, T: types.Typ[types.Bool]}
 	}
